@@ -235,28 +235,33 @@ class Histories(Driver):
         Driver.__init__(self, tier, seed)
         if tier == "quick":
             # (N, number of distinct missing parents, weight alphabet, max locks, max re-deliveries)
-            self.plan = [(1, 2, (1, 2), 2, 1), (2, 2, (1, 2), 2, 1), (3, 2, (1, 2), 2, 1), (4, 1, (1, 2), 1, 0),
-                         (4, 1, (1,), 0, 1)]
+            self.plan = [(1, 2, (1, 2), 2, 1), (2, 2, (1, 2), 2, 1), (3, 2, (1, 2), 2, 1), (4, 1, (1, 2), 0, 0),
+                         (4, 1, (1,), 1, 1)]
         else:
             self.plan = [(1, 2, (0, 1, 3), 2, 1), (2, 2, (0, 1, 3), 2, 1), (3, 2, (0, 1, 2, 3), 2, 1), (4, 2, (1, 2), 2, 1),
-                         (4, 1, (0, 1, 3), 1, 0), (5, 1, (1, 2), 1, 0), (5, 1, (1,), 0, 1), (6, 1, (1,), 0, 0)]
-        self.bound = dict(plan=[dict(N=p[0], missing_roots=p[1], weights=list(p[2]), max_locks=p[3], max_redeliveries=p[4])
+                         (4, 1, (0, 1, 3), 1, 0), (5, 1, (1, 2), 0, 0), (5, 1, (1,), 1, 1), (6, 1, (1,), 0, 0, "osp")]
+        self.bound = dict(plan=[dict(N=p[0], missing_roots=p[1], weights=list(p[2]), max_locks=p[3], max_redeliveries=p[4],
+                                     batchings="ordered set partitions" if len(p) > 5 else "all permutations x all cuts")
                                 for p in self.plan])
 
     def units(self):
-        for pi, (n, nm, walph, nl, nr) in enumerate(self.plan):
+        for pi, pl in enumerate(self.plan):
+            n, nm, walph = pl[:3]
             for parents in parent_functions(n, nm):
                 for ws in itertools.product(walph, repeat=n):
                     yield dict(plan=pi, parents=list(parents), weights=list(ws))
 
     def execute(self, unit):
-        n, nm, walph, nl, nr = self.plan[unit["plan"]]
+        n, nm, walph, nl, nr = self.plan[unit["plan"]][:5]
+        osp = len(self.plan[unit["plan"]]) > 5
         r = Runner(unit["parents"], unit["weights"])
         # decoy: a second BlockChain alive in this process, fed a fixed history; must stay unaffected
         decoy = Runner([ANCHOR] + list(range(1, n)), [1] * n)
         decoy.start()
         decoy.step(["add", list(range(1, n + 1))])
         for batches in batchings(n):
+            if osp and any(b != sorted(b) for b in batches):
+                continue    # ordered set partitions only (ascending order inside a batch)
             for events in with_deviations(batches, n, nl, nr):
                 out = r.run(events)
                 yield dict(parents=unit["parents"], weights=unit["weights"], events=events), out
@@ -294,7 +299,7 @@ class ByteIds(Histories):
                                 for p in self.plan])
 
     def execute(self, unit):
-        n, nm, walph, nl, nr = self.plan[unit["plan"]]
+        n, nm, walph, nl, nr = self.plan[unit["plan"]][:5]
         r = Runner(unit["parents"], unit["weights"], mkid=byte_id)
         for batches in batchings(n):
             for events in with_deviations(batches, n, nl, nr):
